@@ -57,6 +57,7 @@ def handle (st : St) : List Str → St × Str
           unhexList vars, unhexList consts, unhexList imps, ie = ['1'], fe = ['1'], ids te, sil = ['1']⟩
         ({ st with targets := { t with gens := g :: t.gens } :: ts }, str "ok")
       | _, _ => (st, str "bad-op")
+    else if op = str "argsverify" then (st, str "ok")   -- judged by the harness's oracle (GeneratorArgs flag handling)
     else if op = str "dir" then
       match rest with
       | [p] => ({ st with disk := { st.disk with dirs := st.disk.dirs ++ [unhex p] } }, str "ok")
